@@ -32,12 +32,14 @@ pub enum OpK {
     UMul,
     UAdd,
     UScale(f64),
+    /// like UMul, but its derivative closure itself goes through `Array::op(.., Some(closure))`
+    UMulN,
 }
 
 impl OpK {
     pub fn arity(&self) -> usize {
         match self {
-            OpK::Add | OpK::Sub | OpK::Mul | OpK::Div | OpK::Axpy(_) | OpK::UMul | OpK::UAdd => 2,
+            OpK::Add | OpK::Sub | OpK::Mul | OpK::Div | OpK::Axpy(_) | OpK::UMul | OpK::UAdd | OpK::UMulN => 2,
             OpK::Matmul { bias, .. } => {
                 if *bias {
                     3
@@ -50,7 +52,7 @@ impl OpK {
         }
     }
     pub fn is_user(&self) -> bool {
-        matches!(self, OpK::UMul | OpK::UAdd | OpK::UScale(_))
+        matches!(self, OpK::UMul | OpK::UAdd | OpK::UScale(_) | OpK::UMulN)
     }
     /// polynomial with integer constants: integer inputs give exactly representable results
     pub fn name(&self) -> String {
@@ -77,6 +79,7 @@ impl OpK {
             ),
             OpK::Conv { sr, sc } => format!("conv({},{})", sr, sc),
             OpK::UMul => "umul".into(),
+            OpK::UMulN => "umul-nested".into(),
             OpK::UAdd => "uadd".into(),
             OpK::UScale(c) => format!("uscale({})", c),
         }
@@ -112,14 +115,14 @@ fn dom_bounded(t: &T, b: f64) -> Result<(), RErr> {
 
 /// Apply the operation in the reference model.
 pub fn apply_ref(op: &OpK, a: &[&T]) -> Result<T, RErr> {
-    if matches!(op, OpK::UMul | OpK::UAdd) && a[0].dims != a[1].dims {
+    if matches!(op, OpK::UMul | OpK::UAdd | OpK::UMulN) && a[0].dims != a[1].dims {
         // the harness's user operations are defined for equal shapes only
         return Err(RErr::Refuse);
     }
     let r = match op {
         OpK::Add | OpK::UAdd => a[0].zip(a[1], |x, y| x.add(y))?,
         OpK::Sub => a[0].zip(a[1], |x, y| x.sub(y))?,
-        OpK::Mul | OpK::UMul => a[0].zip(a[1], |x, y| x.mul(y))?,
+        OpK::Mul | OpK::UMul | OpK::UMulN => a[0].zip(a[1], |x, y| x.mul(y))?,
         OpK::Div => {
             // shape admissibility is decided before the domain
             broadcast_dims(&a[0].dims, &a[1].dims).ok_or(RErr::Refuse)?;
@@ -143,7 +146,12 @@ pub fn apply_ref(op: &OpK, a: &[&T]) -> Result<T, RErr> {
             a[0].map(move |x| x.powf(e))
         }
         OpK::Ln => {
-            dom_pos(a[0])?;
+            // ln is well conditioned in absolute terms for every positive input
+            for d in &a[0].x {
+                if !(d.v > 0.0) || d.m > COND_MAX * d.v.abs() {
+                    return Err(RErr::Domain);
+                }
+            }
             a[0].map(|x| x.ln())
         }
         OpK::Exp => {
@@ -200,7 +208,7 @@ pub fn take_user_log() -> Vec<LogEntry> {
     ULOG.with(|l| l.replace(Vec::new()))
 }
 
-fn log_push(tag: usize, t: &[bool], x: &Array) {
+pub fn log_push(tag: usize, t: &[bool], x: &Array) {
     ULOG.with(|l| {
         l.borrow_mut().push(LogEntry {
             tag,
@@ -235,6 +243,24 @@ pub fn user_op(op: &OpK, args: &[&Array], tag: usize) -> Array {
                 ]
             });
             Array::op(args, fwd, Some(bwd))
+        }
+        OpK::UMulN => {
+            // the helper a user would write once and use everywhere: always with a derivative closure,
+            // also for the products inside its own derivative
+            fn my_mul(a: &Array, b: &Array, tag: usize, depth: usize) -> Array {
+                let fwd: ForwardOp = Rc::new(|x: &[&Array]| ew(x[0], x[1], |p, q| p * q));
+                let bwd: BackwardOp = Rc::new(move |c, t, x| {
+                    if depth == 0 {
+                        log_push(tag, t, x);
+                    }
+                    vec![
+                        if t[0] { Some(if depth < 2 { my_mul(&c[1], x, tag, depth + 1) } else { ew(&c[1], x, |p, q| p * q) }) } else { None },
+                        if t[1] { Some(if depth < 2 { my_mul(&c[0], x, tag, depth + 1) } else { ew(&c[0], x, |p, q| p * q) }) } else { None },
+                    ]
+                });
+                Array::op(&[a, b], fwd, Some(bwd))
+            }
+            my_mul(args[0], args[1], tag, 0)
         }
         OpK::UAdd => {
             let fwd: ForwardOp = Rc::new(|x: &[&Array]| ew(x[0], x[1], |p, q| p + q));
@@ -289,6 +315,6 @@ pub fn apply_impl(op: &OpK, a: &[&Array], tag: usize) -> Array {
             Array::matmul((a[0], *ta), (a[1], *tb), if *bias { Some(a[2]) } else { None })
         }
         OpK::Conv { sr, sc } => a[0].conv(a[1], (*sr, *sc)),
-        OpK::UMul | OpK::UAdd | OpK::UScale(_) => user_op(op, a, tag),
+        OpK::UMul | OpK::UAdd | OpK::UScale(_) | OpK::UMulN => user_op(op, a, tag),
     }
 }
